@@ -21,6 +21,16 @@ type SpecEnv struct {
 	fr      *Frame
 	lookup  func(name string) (Value, bool)
 	inOld   bool
+	// real is the state that receives axiom instances produced while evaluating
+	// (the current state also when st is the old-state snapshot)
+	real *State
+}
+
+func (env *SpecEnv) realState() *State {
+	if env.real != nil {
+		return env.real
+	}
+	return env.st
 }
 
 func (env *SpecEnv) clone() *SpecEnv {
@@ -330,7 +340,12 @@ func (x *Exec) specEq(env *SpecEnv, a, b Value) *Term {
 	switch av := a.(type) {
 	case StrV:
 		if bv, ok := b.(StrV); ok {
-			return x.strEq(av, bv)
+			eq := x.strEq(av, bv)
+			// equal content <=> equal content identity (axiom instance, added to the current state)
+			if rs := env.realState(); rs != nil && rs.vars != nil {
+				x.linkLiteralEq(rs, av, bv, eq)
+			}
+			return eq
 		}
 	case StructV:
 		if bv, ok := b.(StructV); ok {
@@ -462,6 +477,7 @@ func (x *Exec) specCallExpr(env *SpecEnv, e *SExpr) Value {
 				return x.specEval(env, e.Args[0])
 			}
 			ne := *env
+			ne.real = env.realState()
 			ne.st = env.old
 			ne.inOld = true
 			return x.specEval(&ne, e.Args[0])
@@ -586,7 +602,7 @@ func (x *Exec) specCallExpr(env *SpecEnv, e *SExpr) Value {
 			ow := cell.F["comittedValue"].(StructV)
 			opt := ow.F["overwritten"].(StructV)
 			return x.iteVal(opt.F["some"].(BoolV).T, opt.F["value"], ow.F["value"])
-		case "readall", "readlen", "readercontent", "readerlen", "buflen", "bufcontent", "fsinode", "isize", "icontent", "handleinode":
+		case "readall", "readlen", "readercontent", "readerlen", "buflen", "bufcontent", "fsinode", "isize", "icontent", "handleinode", "tickerival":
 			return IntV{Select(env.st.ghostArr(name, SInt), x.identityOf(env.st, x.specEval(env, e.Args[0])))}
 		case "fsexists":
 			return BoolV{Ne(Select(env.st.ghostArr("fsinode", SInt), x.identityOf(env.st, x.specEval(env, e.Args[0]))), IntLit(0))}
@@ -621,6 +637,36 @@ func (x *Exec) specCallExpr(env *SpecEnv, e *SExpr) Value {
 			// jexp(k): expiry of the entry the backend currently holds for key k; ghost, forgotten when a shard lock is acquired
 			kk := x.keyTerm(env.st, x.specEval(env, e.Args[0]))
 			return IntV{Select(env.st.ghostArr("jexp", SInt), kk)}
+		case "unchanged":
+			// unchanged("pattern"): every heap array whose key contains the pattern equals its value in the old state
+			pat, ok := strLitOf(x.specEval(env, e.Args[0]).(StrV))
+			if !ok || env.old == nil {
+				x.specFail("unchanged needs a literal pattern and an old state")
+			}
+			if env.st.epoch != env.old.epoch {
+				return BoolV{TFalse}
+			}
+			var cs []*Term
+			keys := map[string]bool{}
+			for k := range env.st.heap {
+				keys[k] = true
+			}
+			for k := range env.old.heap {
+				keys[k] = true
+			}
+			for k := range keys {
+				if !strings.Contains(k, pat) {
+					continue
+				}
+				cur, okc := env.st.heap[k]
+				old, oko := env.old.heap[k]
+				if okc && oko {
+					cs = append(cs, Eq(cur, old))
+				} else if okc && !oko && !(cur.Op == "var") {
+					cs = append(cs, Eq(cur, Var(fmt.Sprintf("H%d_%s", env.old.epoch, sanitize(k)), cur.Sort)))
+				}
+			}
+			return BoolV{And(cs...)}
 		case "mapsum":
 			m := x.specEval(env, e.Args[0]).(MapV)
 			return IntV{Select(env.st.ghostArr("mapsum", SInt), m.ID)}
